@@ -103,7 +103,15 @@ func c05CaseStorm(rt *rapid.T, rec *ev.Rec, env *c05Env, poisoned *bool) {
 		brr.SetSlowStart(st.SS)
 		handles = brr.VerifBal2Backends()
 		rs := &c05RRState{rec: rec, brr: brr}
-		balance = func(i, algor int) *c05Failure { return rs.balanceOnce(algor, []byte{byte(i)}, false) }
+		balance = func(i, algor int) *c05Failure {
+			f := rs.balanceOnce(algor, []byte{byte(i)}, false)
+			if f != nil && rec.Known(f.Key) {
+				// open finding (a recovered panic): count it and keep the storm going behind it
+				rec.Fail(rt, f.Key, st, "%s", f.Msg)
+				return nil
+			}
+			return f
+		}
 		reload = func(i int) *c05Failure {
 			l := la
 			if i%2 == 0 {
